@@ -11,6 +11,7 @@ E  non-mutation sweep over the public API + write sets vs the effect model (eff_
 The defects repaired by c362486, 9407769, 146d9a5, 613c139, 084bc81 stay in as directed regression cases.
 """
 import itertools, math, random, warnings, copy, importlib
+import math
 from ..common import *
 from ..lie import *
 
@@ -1210,6 +1211,25 @@ def sweep_entries(pp, torch, rng):
          ('knn_filter', pp.knn_filter, (pts, 2)), ('knn_filter-radius', pp.knn_filter, (pts, 2, None, 10.0)),
          ('chspline', pp.chspline, (rn(1, 5, 3),)), ('bspline', pp.bspline, (pp.randn_SE3(1, 6, dtype=D),)),
          ('geodesic_loss', pp.geodesic_loss, (pp.randn_SO3(3, dtype=D), pp.randn_SO3(3, dtype=D)))]
+    # special values that reach the guarded branches (points at infinity, zero depth, signed zeros, subnormals), also
+    # through non-contiguous views and in float32
+    w0 = torch.tensor([[1., 2., 3., 0.], [1., 2., 3., -0.], [4., 5., 6., 1e-320], [1., 1., 1., 2.9e-39], [0.5, -1., 2., 1.]], dtype=D)
+    w0f = torch.tensor([[1., 2., 3., 0.], [1., 2., 3., -0.], [4., 5., 6., 1e-42], [0.5, -1., 2., 1.]], dtype=torch.float32)
+    big = torch.zeros(4, 8, dtype=D)
+    big[:, ::2] = w0[:4]
+    z0 = pts.clone()
+    z0[0, 2], z0[1, 2] = 0.0, -0.0
+    dep0 = rn(6).abs() + 1
+    dep0[0], dep0[1] = 0.0, -0.0
+    M += [('homo2cart-w0', pp.homo2cart, (w0,)), ('homo2cart-w0-float32', pp.homo2cart, (w0f,)), ('homo2cart-w0-strided-view', pp.homo2cart, (big[:, ::2],)),
+          ('homo2cart-w0-transposed-view', pp.homo2cart, (w0[:4].clone().T.contiguous().T,)),
+          ('homo2cart-Act-output', pp.homo2cart, (Ex.Act(torch.tensor([[1., 2., 3., 0.], [0., 0., 0., 0.]], dtype=D)),)),
+          ('point2pixel-z0', pp.point2pixel, (z0, K, Ex)), ('point2pixel-z0-noextrinsics', pp.point2pixel, (z0, K)),
+          ('pixel2point-depth0', pp.pixel2point, (rn(6, 2), dep0, K)), ('reprojerr-z0', pp.reprojerr, (z0, rn(6, 2), K, Ex)),
+          ('pm-signed-zeros', pp.pm, (torch.tensor([0., -0., 1., -2.], dtype=D),)), ('cart2homo-zeros', pp.cart2homo, (torch.zeros(3, 3, dtype=D),)),
+          ('vec2skew-zeros', pp.vec2skew, (torch.zeros(2, 3, dtype=D),)), ('euler2SO3-gimbal', pp.euler2SO3, (torch.tensor([[0.3, math.pi / 2, -1.1], [0., 0., 0.]], dtype=D),)),
+          ('mat2SO3-half-turn', pp.mat2SO3, (torch.diag(torch.tensor([1., -1., -1.], dtype=D)),)),
+          ('nbr_filter-none-kept', pp.nbr_filter, (pts, 5, 1e-9)), ('knn-self', pp.knn, (pts, pts, 1))]
     for e in M:
         E.append(e + ({}, None))
     # trajectories: float64 / float32 stamps, which one is longer, with and without offset
